@@ -312,6 +312,17 @@ impl Record {
         }
     }
 
+    /// H12 (verification hook): the memo bit of `successor_is_durable_or_deleted`.
+    #[cfg(feoxdb_verif)]
+    pub fn verif_successor_safe(&self) -> bool {
+        self.successor_safe.load(Ordering::Acquire)
+    }
+
+    #[cfg(feoxdb_verif)]
+    pub fn verif_set_successor_safe(&self, safe: bool) {
+        self.successor_safe.store(safe, Ordering::Release);
+    }
+
     pub(crate) fn successor_is_durable_or_deleted(&self) -> bool {
         if self.successor_safe.load(Ordering::Acquire) {
             return true;
